@@ -86,6 +86,10 @@ type ModelResult struct {
 	StateN map[string]int
 	// SubInputs records the input each nested graph execution received (path -> inputs).
 	SubInputs map[string][]M
+	// Unconsumed is set when some delivered value never reached a consumer (a Pregel run
+	// that returns while other nodes hold pending values; a node that was skipped after a
+	// data-only predecessor had delivered to it): such a run is outside C19's quantifier.
+	Unconsumed bool
 }
 
 type modelRun struct {
@@ -222,7 +226,14 @@ func (mr *modelRun) run(p *Plan, path, statePath string, in M) (M, string) {
 func (mr *modelRun) runPregel(p *Plan, path, statePath string, in M) (M, string) {
 	chans := map[string]map[string]M{} // target -> sender -> value
 	deliver := func(from string, v M) {
+		sent := 0
+		defer func() {
+			if sent == 0 {
+				mr.res.Unconsumed = true // a value nobody receives
+			}
+		}()
 		send := func(to string) {
+			sent++
 			if chans[to] == nil {
 				chans[to] = map[string]M{}
 			}
@@ -268,6 +279,9 @@ func (mr *modelRun) runPregel(p *Plan, path, statePath string, in M) (M, string)
 			v, ok := take("end")
 			if !ok {
 				return nil, ErrMerge
+			}
+			if len(chans) > 0 {
+				mr.res.Unconsumed = true
 			}
 			return v, ErrNone
 		}
@@ -349,6 +363,12 @@ func (mr *modelRun) runDAG(p *Plan, path, statePath string, in M) (M, string) {
 	}
 	resolve := func(from string) {
 		// called once from has run: route control and data
+		sent := 0
+		defer func() {
+			if sent == 0 {
+				mr.res.Unconsumed = true // a value nobody receives
+			}
+		}()
 		for _, e := range p.Edges {
 			if e.From != from {
 				continue
@@ -364,6 +384,7 @@ func (mr *modelRun) runDAG(p *Plan, path, statePath string, in M) (M, string) {
 					dataTo[e.To] = map[string]M{}
 				}
 				dataTo[e.To][from] = contribute(e, outv[from])
+				sent++
 			}
 		}
 		bi := 0
@@ -383,6 +404,7 @@ func (mr *modelRun) runDAG(p *Plan, path, statePath string, in M) (M, string) {
 						dataTo[to] = map[string]M{}
 					}
 					dataTo[to][from] = outv[from]
+					sent++
 				}
 			}
 			bi++
@@ -419,6 +441,9 @@ func (mr *modelRun) runDAG(p *Plan, path, statePath string, in M) (M, string) {
 		}
 		if !trig {
 			state[k] = skipped
+			if len(dataTo[k]) > 0 {
+				mr.res.Unconsumed = true
+			}
 			continue
 		}
 		// input: merge of the data that was routed here (senders sorted), zero value if none
